@@ -282,6 +282,12 @@ def oracle_perturb(ctx, rng, n_cases, n_leaves):
                     leaves.append(('types', tn, k))
                 if k == 'duct_ftf':
                     leaves += [('types', tn, k, i) for i in range(len(v))]
+                if k in ('FuelModel', 'PinModel', 'SpacerGrid') and isinstance(v, dict):
+                    for kk, vv in v.items():
+                        if isinstance(vv, (int, float)) and not isinstance(vv, bool):
+                            leaves.append(('types', tn, k, kk))
+                        elif isinstance(vv, list) and vv and all(isinstance(x, (int, float)) for x in vv):
+                            leaves += [('types', tn, k, kk, i) for i in range(len(vv))]
                 if k == 'AxialRegion' and v:
                     for ri, r_ in enumerate(v):
                         leaves += [('types', tn, k, ri, kk) for kk, vv in r_.items()
